@@ -15,7 +15,8 @@ OLD = "# precious previous content\nclass Keep:\n    x: int = 1\n"
 TARGET = "/vfs/out/models.py"
 
 FILE_FAULTS = ["missing", "malformed", "lookup_missing_key", "lookup_scalar", "non_object_sample", "scalar_root",
-               "non_string_key", "reused_file_lookup_missing_key", "reused_file_lookup_scalar"]
+               "non_string_key", "reused_file_lookup_missing_key", "reused_file_lookup_scalar",
+               "lookup_null", "lookup_zero", "lookup_empty_string", "lookup_false", "null_root"]
 ARG_FAULTS = ["bad_merge", "bad_merge_arg", "custom_without_generator", "generator_without_custom", "bad_structure",
               "bad_framework", "bad_input_format", "no_file_arg", "bad_max_literals", "bad_custom_generator_path"]
 STEP_FAULTS = ["generate", "merge_models", "generate_names", "compose", "codegen"]
@@ -40,7 +41,7 @@ def _doc(fmt, objs, wrap):
         return _ini(objs)
     body = objs if len(objs) != 1 else objs[0]
     if wrap:
-        body = {"data": {"items": body, "count": len(objs)}}
+        body = {"data": {"items": body, "count": len(objs), "nothing": None, "zero": 0, "blank": "", "no": False}}
     return json.dumps(body)
 
 
@@ -81,7 +82,7 @@ def scen_faults(ch, params, out):
     file_fault = None
     if family == "file":
         kinds = [k for k in FILE_FAULTS if not (
-            (k in ("non_object_sample", "scalar_root") and fmt == "ini") or (k == "non_string_key" and fmt != "yaml")
+            (k in ("non_object_sample", "scalar_root", "null_root") and fmt == "ini") or (k == "non_string_key" and fmt != "yaml")
             or ("lookup" in k and not wrap))]
         file_fault = (ch.choose("file_fault", kinds), ch.pick("pos", nfiles))
         faults.append(file_fault[0])
@@ -100,6 +101,12 @@ def scen_faults(ch, params, out):
         elif kind == "lookup_scalar":
             fs[path] = _doc(fmt, split[i], wrap)
             lookup = "data.count"
+        elif kind in ("lookup_null", "lookup_zero", "lookup_empty_string", "lookup_false"):
+            fs[path] = _doc(fmt, split[i], wrap)
+            lookup = {"lookup_null": "data.nothing", "lookup_zero": "data.zero", "lookup_empty_string": "data.blank", "lookup_false": "data.no"}[kind]
+        elif kind == "null_root":
+            fs[path] = "null"
+            lookup = "-"
         elif kind:
             fs[path] = _faulty_doc(fmt, kind, split[i], wrap)
         else:
